@@ -41,7 +41,7 @@ func (c *cluster) commitObserved(n *node, how string, idx, term uint64, typ pb.E
 	c.flags |= fCommitAdvanced
 }
 
-func (c *cluster) check(n *node, before *nodeView, eff *effects, e Event) {
+func (c *cluster) check(n, before *node, eff *effects, e Event) {
 	hs := n.hs
 	// --- persisted HardState never regresses
 	if hs.Term < before.hs.Term {
@@ -133,7 +133,7 @@ func (c *cluster) check(n *node, before *nodeView, eff *effects, e Event) {
 		if c.leaderOf[t] != 0 && c.leaderOf[t] != n.id {
 			c.fail("ElectionSafety", "node %d became leader of term %d, which already had leader %d", n.id, t, c.leaderOf[t])
 		}
-		newLeader := !before.wasLeader || before.term != t
+		newLeader := !before.isLeader() || before.status.Term != t
 		if c.leaderOf[t] == 0 {
 			c.leaderOf[t] = n.id
 		}
@@ -162,7 +162,7 @@ func (c *cluster) check(n *node, before *nodeView, eff *effects, e Event) {
 				}
 			}
 		}
-	} else if before.wasLeader && before.alive && n.alive {
+	} else if before.isLeader() && n.alive {
 		c.flags |= fLeaderStepDown
 		if e.K == evHeartbeat {
 			c.flags |= fCheckQuorumDown
